@@ -62,7 +62,7 @@ func (e *Engine) Generate(prop, tier string, seed uint64, run int) *sim.Plan {
 	}
 	for i := 0; i < n; i++ {
 		st := sim.Step{Id: i + 1, R: r.Intn(np), N: r.Intn(12), B: r.Intn(8)}
-		st.Op = []string{"open", "open", "open", "close", "close", "use", "kill-open", "kill-use", "kill-close", "kill-idle", "cmd", "cmd", "cmd"}[r.Intn(13)]
+		st.Op = []string{"open", "open", "open", "close", "close", "use", "kill-open", "kill-use", "kill-close", "kill-idle", "cmd", "cmd", "cmd", "stall-close"}[r.Intn(14)]
 		if strings.HasPrefix(st.Op, "kill-") {
 			st.F = []string{"", "", "new", "prefix:1"}[r.Intn(4)]
 		}
@@ -382,6 +382,72 @@ func (e *Engine) Execute(p *sim.Plan, keepLog bool) (res *sim.RunResult) {
 			if lock, ok := x.lockContent(); ok && err == nil {
 				x.violate("lock-left-by-command", "process %d closed the cache cleanly but the lock file is still there (%q)", pr.id, lock)
 			}
+			res.StepsOK++
+		case "stall-close":
+			// a slow holder: its Close is held at the point where it closes the repository handle, or
+			// where it removes a file (the lock), and another process tries to open meanwhile. Until
+			// the holder is done it still has the cache, so the newcomer must be refused.
+			if !pr.open {
+				break
+			}
+			var other *proc
+			for _, o := range x.procs {
+				if o != pr && !o.live {
+					other = o
+				}
+			}
+			if other == nil {
+				break
+			}
+			x.act(pr)
+			pr.c.StallKind = []string{"Close", "fs.Remove"}[st.N%2]
+			pr.c.Stalled, pr.c.Release = make(chan struct{}), make(chan struct{})
+			done := make(chan error, 1)
+			go func(c *cache.RepoCache) { done <- c.Close() }(pr.cache)
+			var cerr error
+			finished := false
+			select {
+			case <-pr.c.Stalled:
+				w.Stats.Fault("holder-stalled-in-close")
+				x.nt = true
+				if lock, ok := x.lockContent(); !ok || lock != fmt.Sprint(pr.pid) {
+					// nothing stops a newcomer any more (a real one would get in, and then wait on
+					// the index files the holder has still open: not tried here, it would block)
+					x.violate("live-lock-removed", "process %d (pid %d) has not finished closing the cache (held at %s) but its lock file is gone (content %q, exists %v)", pr.id, pr.pid, []string{"the close of its repository handle", "the removal of a file"}[st.N%2], lock, ok)
+					x.act(pr)
+					close(pr.c.Release)
+					cerr = <-done
+					break
+				}
+				opened, died, oerr := x.startOpen(other, -1, "")
+				w.Log.Add("open p%d during the stalled close of p%d -> opened=%v", other.id, pr.id, opened)
+				w.Log.Note("open error: %v", oerr)
+				if opened || died {
+					x.violate("second-open-accepted", "process %d (pid %d) opened the cache while process %d (pid %d) had not finished closing it (held at %s)", other.id, other.pid, pr.id, pr.pid, []string{"the close of its repository handle", "the removal of a file"}[st.N%2])
+					if opened {
+						_ = other.cache.Close()
+						sim.UnregisterFSControl(x.gb, other.c)
+						other.live, other.open, other.cache, other.raw = false, false, nil, nil
+						w.EndPid(other.pid)
+					}
+				} else if oerr != nil && !strings.Contains(oerr.Error(), fmt.Sprint(pr.pid)) {
+					x.violate("refusal-without-holder", "the open refused during the stalled close of pid %d does not name it: %v", pr.pid, oerr)
+				}
+				x.act(pr)
+				close(pr.c.Release)
+				cerr = <-done
+			case cerr = <-done:
+				finished = true
+			}
+			_ = finished
+			pr.c.StallKind = ""
+			if cerr != nil {
+				w.Log.Note("close error: %v", cerr)
+			}
+			sim.UnregisterFSControl(x.gb, pr.c)
+			pr.live, pr.open, pr.cache, pr.raw = false, false, nil, nil
+			w.EndPid(pr.pid)
+			x.lastHolderEnd = "closed"
 			res.StepsOK++
 		case "use", "kill-use":
 			if !pr.open {
